@@ -273,6 +273,7 @@ func (f *Frame) binop(st *State, in ssa.Instruction, op token.Token, a, b *Val, 
 	case token.AND_NOT:
 		return scalar(BVAnd(x, BVNot(y)), rt)
 	case token.SHL, token.SHR:
+		y = c.known(y)
 		yw, ysigned, _ := intInfo(b.Ty)
 		if ysigned {
 			f.panicSite(st, in, "negshift", BVSlt(y, BVLitI(0, yw)), "negative shift amount")
